@@ -13,6 +13,7 @@ type c08Op struct {
 	offer    bool
 	val      int
 	ok       bool // removal: a value was returned (not the empty error)
+	rejected bool // insertion refused with ErrQueueIsFull (bounded wrapped queues only)
 	inv, ret int
 }
 
@@ -67,6 +68,11 @@ func (r *c08Rec) end(op c08Op) {
 
 // c08Linearizable: brute-force search for a sequential witness; lifo selects the stack specification.
 func c08Linearizable(ops []c08Op, state []int, lifo bool) bool {
+	return c08LinearizableCap(ops, state, lifo, 0)
+}
+
+// capacity > 0: the specification is a bounded FIFO - an insertion is refused exactly when it is full
+func c08LinearizableCap(ops []c08Op, state []int, lifo bool, capacity int) bool {
 	if len(ops) == 0 {
 		return true
 	}
@@ -84,7 +90,11 @@ func c08Linearizable(ops []c08Op, state []int, lifo bool) bool {
 		var next []int
 		legal := true
 		switch {
+		case op.offer && op.rejected:
+			legal = capacity > 0 && len(state) == capacity
+			next = state
 		case op.offer:
+			legal = capacity == 0 || len(state) < capacity
 			next = append(append([]int{}, state...), op.val)
 		case !op.ok:
 			legal = len(state) == 0
@@ -102,7 +112,7 @@ func c08Linearizable(ops []c08Op, state []int, lifo bool) bool {
 			continue
 		}
 		rest := append(append([]c08Op{}, ops[:i]...), ops[i+1:]...)
-		if c08Linearizable(rest, next, lifo) {
+		if c08LinearizableCap(rest, next, lifo, capacity) {
 			return true
 		}
 	}
@@ -234,4 +244,93 @@ func vh_C08_Stack() {
 	if !vfNoPanic("nopanic", func() { c08Run(true) }) {
 		return
 	}
+}
+
+// c08Ring: a BOUNDED, non-thread-safe Queue (two slots): Offer and Put refuse with ErrQueueIsFull when it is full, Poll
+// and Take report ErrQueueIsEmpty when it is empty. "Over any wrapped queue": ConcurrentQueue must serialise these too.
+type c08Ring struct {
+	buf     [2]c08Item
+	head, n int
+}
+
+func (r *c08Ring) Offer(v c08Item) error {
+	if r.n == len(r.buf) {
+		return ErrQueueIsFull
+	}
+	slot := (r.head + r.n) % len(r.buf)
+	r.buf[slot] = v
+	r.n = r.n + 1
+	return nil
+}
+func (r *c08Ring) Put(v c08Item) error { return r.Offer(v) }
+func (r *c08Ring) Poll() (c08Item, error) {
+	if r.n == 0 {
+		return c08Item{}, ErrQueueIsEmpty
+	}
+	v := r.buf[r.head]
+	r.head = (r.head + 1) % len(r.buf)
+	r.n = r.n - 1
+	return v, nil
+}
+func (r *c08Ring) Take() (c08Item, error) { return r.Poll() }
+
+// ConcurrentQueue over the bounded ring: prefill 1..2 of its 2 slots, one goroutine inserting (Put or Offer), one
+// removing and then inserting; every schedule with <= 2 scheduling deviations; the history - including refused
+// insertions - must have a sequential witness against a bounded FIFO.
+func vh_C08_BoundedWrapped() {
+	vfSetDelayBound(2)
+	rec := &c08Rec{}
+	ring := &c08Ring{}
+	q := NewConcurrentQueue[c08Item](ring)
+	prefill := vfRange("prefill", 1, 2)
+	var initial []int
+	for i := 0; i < prefill; i++ {
+		ring.Offer(rec.item(100 + i))
+		initial = append(initial, 100+i)
+	}
+	insert := func(usePut bool, tag int, it c08Item) {
+		t := rec.begin()
+		var err error
+		if usePut {
+			err = q.Put(it)
+		} else {
+			err = q.Offer(it)
+		}
+		vfAssert("insert-error-kind", err == nil || err == ErrQueueIsFull)
+		rec.end(c08Op{offer: true, val: tag, rejected: err != nil, inv: t})
+	}
+	remove := func(useTake bool) {
+		t := rec.begin()
+		var v c08Item
+		var err error
+		if useTake {
+			v, err = q.Take()
+		} else {
+			v, err = q.Poll()
+		}
+		rec.end(c08Op{val: rec.removed(v, err), ok: err == nil, inv: t})
+	}
+	aPut, bPut, bTake := vfChoose("a-put", 2) == 1, vfChoose("b-put", 2) == 1, vfChoose("b-take", 2) == 1
+	i1, i2 := rec.item(1), rec.item(2)
+	ok := vfNoPanic("nopanic", func() {
+		var wg sync.WaitGroup
+		wg.Add(2)
+		go func() { insert(aPut, 1, i1); wg.Done() }()
+		go func() { remove(bTake); insert(bPut, 2, i2); wg.Done() }()
+		wg.Wait()
+		for i := 0; i < 4; i++ {
+			t := rec.begin()
+			v, err := q.Poll()
+			rec.end(c08Op{val: rec.removed(v, err), ok: err == nil, inv: t})
+			if err != nil {
+				break
+			}
+		}
+	})
+	if !ok {
+		return
+	}
+	vfAssert("linearizable", c08LinearizableCap(rec.ops, initial, false, 2))
+	vfAssert("wrapped-structure-consistent", ring.n == 0)
+	vfReach("end")
 }
